@@ -1,15 +1,16 @@
 """C07 - same seed, same trajectory, independent of global state and other models (engine X).
 
 Decided fragment: NON-INTERFERENCE as a 2-safety statement.  The model's generator is a symbolic stream r; every
-process-global generator is a havoc stub driven by an independent symbolic stream g; the agents' hash values (what
-CPython derives from object addresses - ambient process state) are symbolic too.  The result of every random service
+process-global generator is a havoc stub driven by an independent symbolic stream g; the iteration order of every builtin set the
+framework builds (which CPython derives from hash values, i.e. object addresses / PYTHONHASHSEED - ambient process
+state) is symbolic too (stream h).  The result of every random service
 must equal an oracle computed from r and the model's own configuration alone; if the framework consulted a global
 generator, another model, or hash/address order, the result would depend on g / h and z3 exhibits it.
 """
 import random
 import vf.hx as hx
 from vf.spec import X
-from vf.stubs import SymRandom, Havoc, NULL_LOGGER
+from vf.stubs import SymRandom, Havoc, HavocSet, NULL_LOGGER
 import ECAgent.Core as Core
 from ECAgent.Core import Model, Agent, Component, Environment
 import ECAgent.Environments as Env
@@ -21,11 +22,7 @@ class T1(Component):
 
 
 class HA(Agent):
-    """agent whose hash value is chosen by the solver (default hashes derive from memory addresses)"""
     __slots__ = ['h']
-
-    def __hash__(self):
-        return self.h
 
 
 _REAL = {}
@@ -53,6 +50,9 @@ def _world(m, kind):
     return env
 
 
+_MISSING = object()
+
+
 class _Patch:
     """havoc every process-global generator for the duration of a path"""
 
@@ -61,6 +61,13 @@ class _Patch:
         self.saved = []
 
     def __enter__(self):
+        # the builtin set/frozenset as seen by the framework's modules: iteration order is arbitrary (symbolic)
+        import ECAgent.Batching as _B
+        import ECAgent.Collectors as _C
+        for mod in (Core, Env, _B, _C):
+            for n in ("set", "frozenset"):
+                self.saved.append((mod, n, mod.__dict__.get(n, _MISSING)))
+                setattr(mod, n, HavocSet)
         for mod, names in ((random, ("choice", "shuffle", "random", "randint", "randrange", "sample")),
                            (np.random, ("choice", "shuffle", "random", "randint", "permutation"))):
             for n in names:
@@ -70,7 +77,10 @@ class _Patch:
 
     def __exit__(self, *a):
         for mod, n, v in self.saved:
-            setattr(mod, n, v)
+            if v is _MISSING:
+                delattr(mod, n)
+            else:
+                setattr(mod, n, v)
         return False
 
 
@@ -116,6 +126,7 @@ def draws_only_from_model(c0: bool, c1: bool, c2: bool, t0: int, t1: int, t2: in
     rng = SymRandom([r0, r1, r2])
     m.random = rng
     hav = Havoc([g0, g1, g2, g0, g1, g2])
+    HavocSet.order, HavocSet._k, HavocSet.iterated = [h0, h1, h2], 0, 0
     with _Patch(hav):
         res = _populate(m, env, n, [c0, c1, c2], [t0, t1, t2], [h0, h1, h2], kind != 'plain')
         if other:
@@ -209,13 +220,13 @@ def seed_plumbing(seed: int, none_seed: bool) -> bool:
 
 
 BOUNDS = {"agents": "<= 3", "draws": "<= 3 from the model stream, all non-negative ints", "global-generator stream": "all non-negative ints",
-          "agent hash values": "0..7 each (all relative orders and collisions)", "tags": "0/1"}
+          "set iteration order": "every permutation (symbolic Lehmer code, digits 0..7)", "tags": "0/1"}
 OUTSIDE = ["that random.Random(seed) itself is deterministic (C implementation of the Mersenne Twister)",
-           "PYTHONHASHSEED-dependent hashing of str/bytes (only object hashes are symbolic here)",
+           "hash-order dependence through set literals/comprehensions or through third-party containers (only set()/frozenset() calls are havocked)",
            "fresh interpreter vs. batch worker process: a worker builds its model from its kwargs alone (decided in C15.serial)",
            "user systems that themselves call the global generators"]
 STUBS = ["model.random = SymRandom(stream)", "random.* and numpy.random.* entry points replaced by Havoc stubs driven by an independent symbolic stream",
-         "ECAgent.Core.random replaced by a recording module (seed_plumbing only)", "agents are HA(Agent) with a solver-chosen __hash__",
+         "ECAgent.Core.random replaced by a recording module (seed_plumbing only)", "set/frozenset as seen by ECAgent.Core/Environments/Batching/Collectors replaced by HavocSet: exact membership/size/algebra, arbitrary (symbolic) iteration order; set literals/comprehensions are not intercepted",
          "Model.logger replaced by a no-op logger"]
 ASSUMPTIONS = ["the oracle is computed from the model's own stream and configuration only: random.Random.choice(seq) = seq[_randbelow(len(seq))], "
                "random.Random.shuffle = Fisher-Yates with _randbelow(i+1)"]
